@@ -86,7 +86,7 @@ class DynamicSGEDecider(SynthesisDecider):
         return alternatives[v % len(alternatives)]
 
     def validate(self) -> None:
-        if self.max_depth <= self.grammar.get_min_tree_depth():
+        if self.max_depth < self.grammar.get_min_tree_depth():
             if self.grammar.get_min_tree_depth() == 1000000:
                 raise GeneticEngineError(
                     f"""Grammar's minimal tree depth is {self.grammar.get_min_tree_depth()}, which is the default tree depth.
